@@ -1,5 +1,5 @@
 (** C14 — Handler scoping: the entered runtime serves; leaving a block restores the prior.
-    Statements about Model/Runtime.v (labrea/runtime.py as of fix: 93f0f4c, fd53836), each
+    Statements about Model/Runtime.v (labrea/runtime.py as of fix: 93f0f4c, fd53836, 8a7cb3b), each
     closed by [exact] and followed by [Print Assumptions]; non-vacuity [Example]s at the end.
     Every [forall ops] / [forall body] is an unbounded quantification over operation lists. *)
 From Coq Require Import List NArith Bool.
@@ -13,11 +13,9 @@ From LV Require Import Model.Runtime Proofs.RuntimeProofs.
     satisfying the code's invariant [state_ok] (in particular a thread with or without a
     runtime, below), every operation -- in particular every [Run] -- is answered by the code
     model exactly as the stack specification answers it, and the abstraction of the final
-    state is the specification's final state.
-    Side condition (see C14_falsy_handler_refuted): handlers are objects whose truth value is
-    True, as every function, lambda, bound method and class is. *)
+    state is the specification's final state.  No side condition on handlers. *)
 Theorem C14_refines_stack : forall ops s,
-  state_ok s = true -> objs_truthy (ob s) = true -> forallb op_truthy ops = true ->
+  state_ok s = true ->
   snd (run ops s) = snd (arun ops (abs s)) /\
   abs (fst (run ops s)) = fst (arun ops (abs s)) /\
   state_ok (fst (run ops s)) = true.
@@ -26,11 +24,10 @@ Print Assumptions C14_refines_stack.
 
 (** One commuting square per operation (the lemma the refinement is lifted from). *)
 Theorem C14_step_commutes : forall c s,
-  state_ok s = true -> objs_truthy (ob s) = true -> op_truthy c = true ->
+  state_ok s = true ->
   abs (fst (step c s)) = fst (astep c (abs s)) /\
   snd (step c s) = snd (astep c (abs s)) /\
-  state_ok (fst (step c s)) = true /\
-  objs_truthy (ob (fst (step c s))) = true.
+  state_ok (fst (step c s)) = true.
 Proof. exact step_commutes. Qed.
 Print Assumptions C14_step_commutes.
 
@@ -127,7 +124,7 @@ Print Assumptions C14_late_default_served.
 (** ** The serve rule: handler held by the current runtime, else the current default, else
     TypeError; the request does not change the state. *)
 Theorem C14_handler_else_default_else_typeerror : forall s r t,
-  cur s = Some r -> objs_truthy (ob s) = true ->
+  cur s = Some r ->
   step (Run t) s =
     (s, match lookup t (handlers_of (ob s) r) with
         | Some h => OServed h
@@ -149,16 +146,6 @@ Theorem C14_serve_without_runtime : forall s t,
 Proof. exact serve_rule_no_runtime. Qed.
 Print Assumptions C14_serve_without_runtime.
 
-(** ** Where the current code departs from the property text (a finding, replayed on the
-    implementation by the harness): a held handler whose truth value is False is skipped in
-    favour of the default.  This is why C14_refines_stack carries the truthiness condition. *)
-Theorem C14_falsy_handler_refuted :
-  exists ops s,
-    state_ok s = true /\ objs_truthy (ob s) = true /\
-    snd (run ops s) <> snd (arun ops (abs s)).
-Proof. exact falsy_handler_refuted. Qed.
-Print Assumptions C14_falsy_handler_refuted.
-
 (** ** About the OLD code only (before fix: 93f0f4c; NOT the current /repo): with the single
     [previous] pointer stored on the runtime object, re-entering an active runtime, or
     entering one in a thread without a runtime, loses the runtime to restore: the next request
@@ -179,6 +166,19 @@ Theorem C14_old_code_refuted_no_runtime :
 Proof. exact old_code_refuted_no_runtime. Qed.
 Print Assumptions C14_old_code_refuted_no_runtime.
 
+(** ** About the OLD code only (fd53836 .. before fix: 8a7cb3b; NOT the current /repo): with
+    [self.handlers.get(T) or _DEFAULT_HANDLERS[T]] in Runtime.run a held handler whose truth
+    value is False was skipped in favour of the default, where the specification -- and the
+    current code -- serve with the held handler. *)
+Theorem C14_old_or_fallback_refuted :
+  exists ops s,
+    state_ok s = true /\
+    last (snd (run_or_old ops s)) ODone = OServed 2%N /\
+    last (snd (arun ops (abs s))) ODone = OServed falsy_tag /\
+    snd (run ops s) = snd (arun ops (abs s)).
+Proof. exact old_or_fallback_refuted. Qed.
+Print Assumptions C14_old_or_fallback_refuted.
+
 (** ** Non-vacuity. *)
 Open Scope N_scope.
 
@@ -196,7 +196,6 @@ Example C14_example_answers :
   [ ORet 0; ORet 0; OServed 1; ORet 0; OServed 1;
     ORet 1; ORet 1; OServed 3; OTypeError; ODone; OServed 2; ORaised;
     OServed 1; ODone; OServed 1; OServed 2; ODone; OTypeError; OServed 2; ORet 2 ]
-  /\ forallb op_truthy ex_history = true
   /\ snd (arun ex_history (abs (fresh_thread (mkObjs [] 0 [])))) =
      snd (run ex_history (fresh_thread (mkObjs [] 0 []))).
 Proof. vm_compute. repeat split. Qed.
@@ -226,3 +225,10 @@ Example C14_example_unmatched :
   run [Exit] (thread_with 0 (mkObjs [(0, [])] 1 [])) =
     (thread_with 0 (mkObjs [(0, [])] 1 []), [OUnmatchedExit]).
 Proof. vm_compute. repeat split. Qed.
+
+(** The current code serves with a held handler whatever its truth value ([falsy_tag] is a
+    callable whose bool() is False): the witness of C14_old_or_fallback_refuted, today. *)
+Example C14_example_falsy_handler_serves :
+  snd (run falsy_witness (fresh_thread (mkObjs [] 0 []))) =
+    [ODone; ORet 0; ORet 0; OServed falsy_tag].
+Proof. vm_compute. reflexivity. Qed.
